@@ -11,6 +11,7 @@ import OpmVerif.Proofs.EclFmt
 import OpmVerif.Proofs.EclFmtFile
 import OpmVerif.Proofs.FmtReal
 import OpmVerif.Proofs.FmtRealFile
+import OpmVerif.Proofs.EclFmtSpec
 
 namespace OpmVerif.Props.C07
 open OpmVerif.Ecl
@@ -62,6 +63,27 @@ theorem seek_arithmetic_agrees_formatted_string (t : ArrType) (hm : t ≠ .mess)
     (fs : List (List Char)) (hw : ∀ f ∈ fs, f.length = (EclFmt.fmtParams t).2.2) :
     (EclFmt.stringBody t fs).length = EclFmt.sizeOnDiskFormatted fs.length t :=
   EclFmt.stringBody_length t hm (EclFmt.fmtParams_pos t hm).1 (EclFmt.fmtParams_pos t hm).2 fs hw
+
+/-- **Published formatted layout** ("fixed-width text columns, sub-blocks of at most 1000 numeric
+or 105 string elements"): the text both formatted writers produce for the data part is, for
+every type and every number of fields, the fields in order with a line break after field `i`
+exactly when it is the `cols`-th field of a line inside its block of `mb` fields, the last field
+of a block, or the last field of the array (`EclFmt.nlAfter`) — so a reader that knows only this
+rule and the column widths agrees with the writer.  The numeric writer (one counter with a
+reset) and the string writer (nested block loop) are two different pieces of code; both
+conform to the same rule. -/
+theorem formatted_layout_conforms_numeric (t : ArrType) (hm : t ≠ .mess) (fs : List (List Char)) :
+    EclFmt.numericBody t fs =
+      EclFmt.specLayout (EclFmt.fmtParams t).1 (EclFmt.fmtParams t).2.1 fs.length 0 fs :=
+  EclFmt.numericBody_eq_spec t hm fs
+
+theorem formatted_layout_conforms_string (t : ArrType) (hm : t ≠ .mess) (fs : List (List Char)) :
+    EclFmt.stringBody t fs =
+      EclFmt.specLayout (EclFmt.fmtParams t).1 (EclFmt.fmtParams t).2.1 fs.length 0 fs :=
+  EclFmt.stringBody_eq_spec t hm fs
+
+example : EclFmt.nlAfter 1000 6 2003 5 ∧ ¬ EclFmt.nlAfter 1000 6 2003 6 ∧ EclFmt.nlAfter 1000 6 2003 999 ∧
+    EclFmt.nlAfter 1000 6 2003 1005 ∧ EclFmt.nlAfter 1000 6 2003 2002 := by decide
 
 /-- **Formatted write → read**: any sequence of well-formed arrays (any number, every type,
 every length below 2^31 — block and line boundaries included) written by the formatted writer
